@@ -118,6 +118,12 @@ def case_tournament(c, logpath, src):
         c["_keepalive"] = other
     pop = as_form(c.get("form", "list"), [inds[i] for i in c["pop"]], problem)
     step = TournamentSelection(c["size"], with_replacement=c["repl"])
+    if c.get("reused") and c["size"] >= 1:
+        # the same operator object has been used before, on the same individuals, for a problem that ranks them the other way round
+        # (its own random source: the scripted one is for the observed application)
+        other2 = mk_problem(dict(c["problem"], min=not c["problem"]["min"]), c["table"], 2, logpath)
+        c["_keepalive2"] = other2
+        guarded(lambda: list(step.apply(other2, SequentialEvaluator(), rep, NativeRandomSource(7), [inds[i] for i in c["pop"]], min(2, len(c["pop"])), 0)))
 
     def f():
         winners = [i.genotype for i in step.apply(problem, SequentialEvaluator(), rep, src, pop, c["k"], 1)]
@@ -206,7 +212,11 @@ def case_init(c, logpath, src=None):
         init = ParameterlessPopulationInitializer(TimeBudget(50), SingleObjectiveProgressTracker(problem, SequentialEvaluator()))
     else:
         init = mk_init(c["init"])
-    return guarded(lambda: len(list(init.initialize(problem, rep, rnd, c["k"]))))
+    def call():
+        for pk in c.get("prior", []):          # the same initialiser object was asked before, for other sizes
+            list(init.initialize(problem, rep, rnd, pk))
+        return len(list(init.initialize(problem, rep, rnd, c["k"])))
+    return guarded(call)
 
 
 def case_inputs(c, logpath, src=None):
